@@ -5,6 +5,19 @@ use std::process::{Command, Stdio};
 
 /// feed all `lines` to one model process, return one response per line
 pub fn run_batch(model: &str, lines: &[String]) -> Result<Vec<String>, String> {
+    run_batch_stats(model, lines).map(|(r, _)| r)
+}
+
+/// as `run_batch`, plus the driver's decoder-transition coverage for this batch (`stats` request)
+pub fn run_batch_stats(model: &str, lines: &[String]) -> Result<(Vec<String>, String), String> {
+    let mut all: Vec<String> = lines.to_vec();
+    all.push("stats".to_string());
+    let mut out = run_batch_raw(model, &all)?;
+    let stats = out.pop().unwrap_or_default();
+    Ok((out, stats))
+}
+
+fn run_batch_raw(model: &str, lines: &[String]) -> Result<Vec<String>, String> {
     let mut child = Command::new(model)
         .stdin(Stdio::piped())
         .stdout(Stdio::piped())
